@@ -332,9 +332,28 @@ def register(M):
         v = args[0]
         if isinstance(v, Instance):
             return v.cls
-        if isinstance(v, (list, tuple, dict, str, int, float, bool, type(None))):
+        if isinstance(v, (collections.OrderedDict,)):
+            return ExtRef('collections.OrderedDict')
+        if isinstance(v, Fr):
+            return ExtRef('builtins.float')
+        if isinstance(v, (list, tuple, dict, str, int, float, bool, type(None))) and type(v).__module__ == 'builtins':
             return ExtRef('builtins.' + type(v).__name__)
-        return ExtRef('type.' + type(v).__name__)
+        if isinstance(v, Vec):
+            kinds = {'nd': 'numpy.ndarray', 'ma': 'numpy.ma.MaskedArray', 'series': 'pandas.Series', 'index': 'pandas.Index', 'dtindex': 'pandas.DatetimeIndex'}
+            return ExtRef(kinds[v.kind])
+        if isinstance(v, Vec2):
+            return ExtRef('numpy.ma.MaskedArray' if v.kind == 'ma' else 'numpy.ndarray')
+        if isinstance(v, Sc):
+            return ExtRef({'f8': 'numpy.float64', 'i8': 'numpy.int64', 'u1': 'numpy.uint8', 'b1': 'numpy.bool_', 'M8': 'numpy.datetime64', 'm8': 'numpy.timedelta64'}.get(v.dtype, 'numpy.generic'))
+        if isinstance(v, ExcVal):
+            return ExcType(v.tname)
+        kind = getattr(v, 'abs_kind', None)
+        if kind in ('xr.Dataset', 'xr.DataArray', 'DataFrame', 'GeometryCollection', 'datetime'):
+            return ExtRef({'xr.Dataset': 'xarray.Dataset', 'xr.DataArray': 'xarray.DataArray', 'DataFrame': 'pandas.DataFrame',
+                           'GeometryCollection': 'shapely.geometry.GeometryCollection', 'datetime': 'pandas.Timestamp'}[kind])
+        if isinstance(v, (FuncVal, BoundMethod)):
+            return ExtRef('types.FunctionType' if isinstance(v, FuncVal) else 'types.MethodType')
+        raise AnalysisError(f'type() of {type(v).__name__} not modelled', node)
 
     @ext('builtins.hasattr')
     def _hasattr(interp, args, kw, node):
@@ -374,6 +393,17 @@ def register(M):
     def _super(interp, args, kw, node):
         # zero-argument super(): find self in the calling frame
         raise AnalysisError('super() handled by interpreter hook', node)
+
+    @ext('builtins.dict.fromkeys')
+    def _fromkeys(interp, args, kw, node):
+        items = list(interp.iterate(args[0], node))
+        value = args[1] if len(args) > 1 else None
+        try:
+            return dict.fromkeys(items, value)      # hashing / equality of repository objects goes through their own __hash__ / __eq__
+        except TypeError as e:
+            raise AbsRaise(ExcVal('TypeError', (str(e),)), node)
+
+    E['collections.OrderedDict.fromkeys'] = _fromkeys
 
     @ext('builtins.id')
     def _id(interp, args, kw, node):
@@ -528,7 +558,32 @@ def register(M):
             f = f.func
         if not isinstance(f, FuncVal):
             raise AnalysisError('signature() of non-repo function', node)
+        while kw.get('follow_wrapped', True) and isinstance(f.attrs.get('__wrapped__'), FuncVal):
+            f = f.attrs['__wrapped__']          # stdlib fact: signature() follows __wrapped__ (functools.wraps)
         return SigVal(f)
+
+    def _update_wrapper(wrapper, wrapped, node):
+        """functools.update_wrapper: name / module / qualname / doc and the attribute dict are copied, __wrapped__ is set"""
+        if not isinstance(wrapper, FuncVal):
+            raise AnalysisError('functools.wraps on a non-function', node)
+        if isinstance(wrapped, FuncVal):
+            wrapper.attrs.update(wrapped.attrs)
+            wrapper.attrs['__name__'] = wrapped.attrs.get('__name__', wrapped.name)
+            wrapper.attrs['__module__'] = wrapped.attrs.get('__module__', wrapped.module.name)
+            wrapper.attrs['__qualname__'] = wrapped.attrs.get('__qualname__', wrapped.qualname)
+        wrapper.attrs['__wrapped__'] = wrapped
+        return wrapper
+    E['functools.update_wrapper'] = lambda it, a, k, n: _update_wrapper(a[0], a[1], n)
+    E['functools.wraps'] = lambda it, a, k, n: PyCallable(lambda it2, a2, k2, n2, _w=a[0]: _update_wrapper(a2[0], _w, n2), 'wraps(...)')
+
+    @ext('inspect.unwrap')
+    def _unwrap(interp, args, kw, node):
+        f = args[0]
+        seen = 0
+        while isinstance(f, FuncVal) and '__wrapped__' in f.attrs and seen < 50:
+            f = f.attrs['__wrapped__']
+            seen += 1
+        return f
 
     @ext('importlib.import_module')
     def _import_module(interp, args, kw, node):
